@@ -13,9 +13,10 @@ use std::sync::{Arc, Mutex};
 // ---------------------------------------------------------------- world description
 
 #[derive(Clone, Copy, PartialEq, Debug)]
-pub enum Kind { Map, Slot, RefFull, RefNonDisc, RefForced }
+pub enum Kind { Map, Slot, RefFull, RefNonDisc, RefForced, MapArcMutex, MapArcRwLock, SlotArcMutex, SlotRwLock }
 impl Kind {
-    pub fn name(self) -> &'static str { match self { Kind::Map => "map", Kind::Slot => "slot", Kind::RefFull => "ref:full", Kind::RefNonDisc => "ref:nondisc", Kind::RefForced => "ref:forced" } }
+    /// the name the model knows the store by (lock wrappers behave like the store they wrap)
+    pub fn name(self) -> &'static str { match self { Kind::Map | Kind::MapArcMutex | Kind::MapArcRwLock => "map", Kind::Slot | Kind::SlotArcMutex | Kind::SlotRwLock => "slot", Kind::RefFull => "ref:full", Kind::RefNonDisc => "ref:nondisc", Kind::RefForced => "ref:forced" } }
 }
 #[derive(Clone, Copy, PartialEq, Debug)]
 pub enum Hm { None, UvOnly, NoUv, UvOnlyMc, NoUvMc }
@@ -73,6 +74,22 @@ impl Inner for Option<Passkey> {
 impl Inner for RefStore {
     fn all(&self) -> Vec<Passkey> { self.items.clone() }
     fn put(&mut self, p: Passkey) { self.items.push(p); }
+}
+impl Inner for Arc<tokio::sync::Mutex<MemoryStore>> {
+    fn all(&self) -> Vec<Passkey> { self.try_lock().unwrap().values().cloned().collect() }
+    fn put(&mut self, p: Passkey) { self.try_lock().unwrap().insert(p.credential_id.clone().into(), p); }
+}
+impl Inner for Arc<tokio::sync::RwLock<MemoryStore>> {
+    fn all(&self) -> Vec<Passkey> { self.try_read().unwrap().values().cloned().collect() }
+    fn put(&mut self, p: Passkey) { self.try_write().unwrap().insert(p.credential_id.clone().into(), p); }
+}
+impl Inner for Arc<tokio::sync::Mutex<Option<Passkey>>> {
+    fn all(&self) -> Vec<Passkey> { self.try_lock().unwrap().iter().cloned().collect() }
+    fn put(&mut self, p: Passkey) { *self.try_lock().unwrap() = Some(p); }
+}
+impl Inner for tokio::sync::RwLock<Option<Passkey>> {
+    fn all(&self) -> Vec<Passkey> { self.try_read().unwrap().iter().cloned().collect() }
+    fn put(&mut self, p: Passkey) { *self.try_write().unwrap() = Some(p); }
 }
 fn d_full() -> DiscoverabilitySupport { DiscoverabilitySupport::Full }
 fn d_non() -> DiscoverabilitySupport { DiscoverabilitySupport::OnlyNonDiscoverable }
@@ -279,6 +296,10 @@ pub fn run_case_tw(ctx: &mut Ctx, prop: &str, w: &World, steps: &[Step], twin: &
         Kind::RefFull => run_generic(ctx, prop, w, RefStore::new(d_full), steps, &tw),
         Kind::RefNonDisc => run_generic(ctx, prop, w, RefStore::new(d_non), steps, &tw),
         Kind::RefForced => run_generic(ctx, prop, w, RefStore::new(d_forced), steps, &tw),
+        Kind::MapArcMutex => run_generic(ctx, prop, w, Arc::new(tokio::sync::Mutex::new(MemoryStore::new())), steps, &tw),
+        Kind::MapArcRwLock => run_generic(ctx, prop, w, Arc::new(tokio::sync::RwLock::new(MemoryStore::new())), steps, &tw),
+        Kind::SlotArcMutex => run_generic(ctx, prop, w, Arc::new(tokio::sync::Mutex::new(None::<Passkey>)), steps, &tw),
+        Kind::SlotRwLock => run_generic(ctx, prop, w, tokio::sync::RwLock::new(None::<Passkey>), steps, &tw),
     }
 }
 
